@@ -94,7 +94,7 @@ func main() {
 	run.Assumptions = []string{
 		"'eventually delivered' is decided as bounded progress: 60 s without a byte on a connection whose both ends are open is a stall; a close must reach the other end within 30 s",
 		"kcp is excluded from the completeness clause of orderly close (the property says reliable transports); prefix, identity and close propagation are still judged over kcp",
-		"the rate bound is anchored at an idle instant before the first connection of the proxy; receiver timestamps are taken after the read returns, so machine load can only make the bound easier to satisfy, never produce a false alarm",
+		"the rate bound is anchored at an idle instant before the first connection of the proxy; receiver timestamps are taken after the read returns, so machine load can only make the bound easier to satisfy; a 10 % relative tolerance absorbs the token over-issue of golang.org/x/time/rate under concurrent WaitN calls (measured up to 0.6 % on the bare library; 0.015 % seen through frp)",
 		"wss is not driven (frps does not terminate wss itself); xtcp is driven through its fallback to an stcp visitor (STUN unreachable)",
 		"tcpMux has the same value on both ends (a mismatch is not a supported configuration)",
 	}
@@ -553,6 +553,20 @@ func runCase(c *h.Case, cc *caseCfg, sv *srvInfo) {
 	}
 }
 
+// rateSlack: golang.org/x/time/rate (v0.5.0, the limiter frp uses) itself hands out slightly more than
+// burst + rate*t when several goroutines call WaitN at once: a caller whose timestamp is older than the
+// limiter's `last` moves `last` backwards (Limiter.advance), so the interval in between is credited twice.
+// Measured on the bare library with 8 concurrent callers: up to 0.6 % of the burst. That is the dependency's
+// arithmetic, not frp's wiring of the limiter, so the bound is judged with a relative tolerance; every break
+// the check is sized against (burst x2, wrong side, per-connection limiter, unaccounted reads, compressed-byte
+// accounting) exceeds it by 25 % or more.
+const rateSlack = 0.10
+
+var (
+	worstRatioMu sync.Mutex
+	worstRatio   float64
+)
+
 // checkRate: anchored rate bound of a limited proxy.
 func checkRate(cs *caseState, px *proxyRT) {
 	if !px.limited() {
@@ -565,6 +579,7 @@ func checkRate(cs *caseState, px *proxyRT) {
 	L := float64(px.cfg.LKB) * 1024
 	var cum int64
 	worst := 0.0
+	overStrict := false
 	for _, e := range evs {
 		cum += int64(e.n)
 		dt := float64(e.t-px.t0) / 1e9
@@ -572,17 +587,29 @@ func checkRate(cs *caseState, px *proxyRT) {
 		if r := float64(cum) / bound; r > worst {
 			worst = r
 		}
-		if float64(cum) > bound {
+		if float64(cum) > bound && float64(cum) <= bound*(1+rateSlack)+512 {
+			overStrict = true
+		}
+		if float64(cum) > bound*(1+rateSlack)+512 {
 			key := "bandwidth-limit-exceeded-" + px.cfg.Limit + "-mode"
 			if px.cfg.Limit == "client" && px.cfg.Comp {
 				key += "-compressed"
 			}
-			cs.fail(nil, key, "proxy %s (limit %d KB/s enforced by the %s, enc=%v comp=%v): %d bytes delivered (both directions, all connections) within %.3f s of an idle start; limit x interval + one burst = %.0f bytes",
-				px.name, px.cfg.LKB, px.cfg.Limit, px.cfg.Enc, px.cfg.Comp, cum, dt, bound)
+			cs.fail(nil, key, "proxy %s (limit %d KB/s enforced by the %s, enc=%v comp=%v): %d bytes delivered (both directions, all connections) within %.3f s of an idle start; limit x interval + one burst = %.0f bytes (tolerance for the rate library's own over-issue: %.0f%%)",
+				px.name, px.cfg.LKB, px.cfg.Limit, px.cfg.Enc, px.cfg.Comp, cum, dt, bound, rateSlack*100)
 			return
 		}
 	}
 	run.Count("rate_bound_checks", 1)
+	if overStrict {
+		run.Count("rate_bound_over_strict_within_tolerance", 1)
+	}
+	worstRatioMu.Lock()
+	if worst > worstRatio {
+		worstRatio = worst
+		run.Set("rate_bound_worst_ratio", worst)
+	}
+	worstRatioMu.Unlock()
 	run.Count("rate_bound_events", int64(len(evs)))
 	run.Count("rate_bound_bytes", cum)
 	cs.c.Ev("rate", "proxy", px.name, "bytes", cum, "worst_ratio", worst)
